@@ -281,6 +281,17 @@ func NewGRpcServer(c queue.Client, api client.QueueProtocolAPI) *Grpcserver {
 		return handler(ctx, req)
 	}
 	opts = append(opts, grpc.UnaryInterceptor(interceptor))
+	// streaming methods (e.g. SubEvent) from remote clients go through the same access check as
+	// unary ones; local (loopback) subscribers are released, as in the JSON-RPC server
+	streamInterceptor := func(srv interface{}, ss grpc.ServerStream, info *grpc.StreamServerInfo, handler grpc.StreamHandler) error {
+		if !isLoopBackPeer(ss.Context()) {
+			if err := auth(ss.Context(), &grpc.UnaryServerInfo{FullMethod: info.FullMethod}); err != nil {
+				return err
+			}
+		}
+		return handler(srv, ss)
+	}
+	opts = append(opts, grpc.StreamInterceptor(streamInterceptor))
 	if rpcCfg.EnableTLS {
 		creds, err := credentials.NewServerTLSFromFile(rpcCfg.CertFile, rpcCfg.KeyFile)
 		if err != nil {
